@@ -424,6 +424,7 @@ class Executor:
         self.trace = None
         self.fn_stack = []
         self.binop_hooks = []
+        self.fe_field = None       # optional: components of an abstract (leaf) struct value, e.g. c0/c1 of an abstract Fq2
         self.harvested = 0         # obligations[:harvested] have been turned into solver queries by the check
         ALL_EXECUTORS.append(self)
         self.cuts = {}             # (fn name, block) -> handler(ex, st, fr, nvisit); may edit the state or raise CutReached
@@ -503,6 +504,10 @@ class Executor:
                     return v.f[el[1]]
                 except IndexError:
                     raise Inconclusive('field %d of %r' % (el[1], v))
+            if isinstance(v, (FE, GE)) and self.fe_field is not None:
+                r = self.fe_field(v, el[1])
+                if r is not None:
+                    return r
             raise Inconclusive('field projection on %r' % (v,))
         if k == 'v':
             if isinstance(v, Enum):
